@@ -95,12 +95,12 @@ Lemma h_pseudo_trans p h : In p (subtrees root) -> In h (t_kids p) -> is_pseudo_
   exists x l, t_trans h = [x] /\ tt_targets x = Some l /\ l <> [] /\ (forall s, In s l -> In s (psids_below p)) /\
               (is_hist_kind (t_kind h) = true -> is_deep_kind (t_kind h) = false -> forall s, In s l -> In s (vsids_kids p)).
 Proof.
-  intros Hp Hh Hps. destruct (vb_sideb_parts root (fh_side root FH)) as (_ & _ & DP & IP & _).
+  intros Hp Hh Hps. destruct (vb_sideb_parts root (fh_side root FH)) as (_ & _ & IP & _).
   assert (Hhs : In h (subtrees root)) by (eapply subtrees_trans; [exact Hp|]; eapply subtrees_kid; [exact Hh | apply subtrees_self]).
   destruct (is_hist_kind (t_kind h)) eqn:Eh.
-  - destruct (vt_history root V p h Hp Hh Eh) as (x & l & Ex & El & _ & _ & Hs). exists x, l. split; [exact Ex|]. split; [exact El|].
+  - destruct (vt_history root V p h Hp Hh Eh) as (x & l & Ex & El & _ & _ & Hs & Hpr). exists x, l. split; [exact Ex|]. split; [exact El|].
     destruct (vt_targets root V h x l Hhs ltac:(rewrite Ex; now left) El) as (Hne & _). split; [exact Hne|]. split.
-    + intros s Hsl. eapply (pseudo_proper_spec is_hist_kind root DP p h x l s); eauto. rewrite Ex. now left.
+    + exact Hpr.
     + intros _ Hnd s Hsl. specialize (Hs s Hsl). now rewrite Hnd in Hs.
   - assert (Hk : t_kind h = KInitial) by (destruct (t_kind h); try discriminate; reflexivity).
     destruct (vt_initial root V p h Hp Hh Hk) as (x & l & Ex & El & _ & _ & Hs). exists x, l. split; [exact Ex|]. split; [exact El|].
@@ -305,7 +305,7 @@ Proof.
   { destruct (is_deep_kind (t_kind (ntree nodes h1))); [exact C1|]. now destruct (g_parent_kid late t0 x q1 Hxn C1) as (_ & Hr & _). }
   assert (R2 : q2 < x < q2 + tsize (ntree nodes q2)).
   { destruct (is_deep_kind (t_kind (ntree nodes h2))); [exact C2|]. now destruct (g_parent_kid late t0 x q2 Hxn C2) as (_ & Hr & _). }
-  destruct (vb_sideb_parts root (fh_side root FH)) as (_ & _ & _ & _ & HD).
+  destruct (vb_sideb_parts root (fh_side root FH)) as (_ & _ & _ & HD).
   assert (Hcase : forall qa qb ha hb, qa < n -> qb < n -> In (ntree nodes ha) (t_kids (ntree nodes qa)) -> In (ntree nodes hb) (t_kids (ntree nodes qb)) ->
             is_hist_kind (t_kind (ntree nodes hb)) = true ->
             (if is_deep_kind (t_kind (ntree nodes ha)) then qa < x < qa + tsize (ntree nodes qa) else fs_parent (st c x) = Some qa) ->
